@@ -510,6 +510,9 @@ func (i *interpreter) runPath(w workItem) (end string) {
 				where = fnName(i.curFn[len(i.curFn)-1])
 			}
 			i.stats.Unsupported[p.msg+" @"+where]++
+			if os.Getenv("VERIF_DEBUG_UNSUPPORTED") != "" {
+				fmt.Fprintf(os.Stderr, "UNSUPPORTED %s\n%s\n", p.msg, debug.Stack())
+			}
 		case budgetExceeded:
 			end = "budget"
 			i.stats.Budget[p.what]++
